@@ -15,4 +15,5 @@ Definition crc_byte (c b : N) : N :=
   let c := N.lxor c b in
   crc_bit (crc_bit (crc_bit (crc_bit (crc_bit (crc_bit (crc_bit (crc_bit c))))))).
 
-Definition crc32 (l : bytes) : N := N.lxor (fold_left crc_byte l crc_mask) crc_mask.
+(* the result is a u32 *)
+Definition crc32 (l : bytes) : N := (N.lxor (fold_left crc_byte l crc_mask) crc_mask) mod 4294967296.
